@@ -268,12 +268,34 @@ def check_predicate(idx: Index, rep: Report) -> None:
 
 
 def _guarded(f, call: ast.Call, pats: list[str]) -> list[str]:
+    from ..astutil import quant_canon
+
     facts = text_facts(f.node, call)
+    from ..astutil import loop_quant_facts
+
+    qfacts = {qc for t, pol in facts if (qc := quant_canon(t, pol)) is not None} | loop_quant_facts(f.node, call)
     missing = []
     for pat in pats:
         want_pol = not pat.startswith("!")
         p_ = pat.lstrip("!")
-        if not any(re.fullmatch(p_, t) and pol == want_pol for t, pol in facts):
+        if any(re.fullmatch(p_, t) and pol == want_pol for t, pol in facts):
+            continue
+        # the same quantified fact in another spelling (all(not P) / not any(P), other bound variable)
+        alt = None
+        for cand in re.split(r"(?<!\\)\|", p_):
+            try:
+                from ..astutil import norm_fact as _nf13, norm_facts as _nfs13
+
+                plain0 = re.sub(r"\\(.)", r"\1", cand)
+                if _nf13(plain0, want_pol) in _nfs13(facts):
+                    alt = plain0
+            except Exception:
+                pass
+            plain = re.sub(r"\\(.)", r"\1", cand)
+            qc = quant_canon(plain, want_pol)
+            if qc is not None and qc in qfacts:
+                alt = qc
+        if alt is None:
             missing.append(pat)
     return missing
 
